@@ -541,7 +541,8 @@ pub(crate) fn compile_inner(inner_re: &str, options: &RegexOptions) -> Result<Ra
 
     let re = RaBuilder::new()
         .configure(config)
-        .syntax(options.syntaxc)
+        // case insensitivity is already part of the pattern (see `Expr::to_str`)
+        .syntax(options.syntaxc.case_insensitive(false))
         .build(inner_re)
         .map_err(CompileError::InnerError)
         .map_err(Error::CompileError)?;
